@@ -12,6 +12,7 @@ import torch.distributed as dist
 
 from vf import kfacref as R
 from vf.digest import digest as _dg
+from vf.digest import kfac_state as _kfac_state
 
 F64 = torch.float64
 
@@ -98,10 +99,22 @@ class RealRun:
         self.pre = self._mk_pre(self.model)
         self.sched = None
         self.rec = []
-        world.set_digest(lambda: _dg(self.pre, self.model, len(self.rec)))
+        world.set_digest(self._digest)
 
     def _scale(self):
         return self.scaler()
+
+    def _digest(self):
+        # parameters of registered modules are reachable through self.pre
+        reg = {id(m) for m in self.pre._layers}
+        extra = [m for m in self.model.modules()
+                 if id(m) not in reg and len(list(m.children())) == 0
+                 and (list(m.parameters(recurse=False))
+                      or list(m.buffers(recurse=False)))]
+        try:
+            return _kfac_state(self.pre, extra, len(self.rec))
+        except Exception:  # noqa  (unexpected structure: generic walk)
+            return _dg(self.pre, extra, len(self.rec))
 
     def _mk_pre(self, model):
         import kfac
@@ -168,7 +181,7 @@ class RealRun:
             self.pre.load_state_dict(sd, compute_inverses=compute)
             self.sched = None
             ev['loaded'] = snap_state(self.pre.state_dict())
-            w.set_digest(lambda: _dg(self.pre, self.model, len(self.rec)))
+            w.set_digest(self._digest)
         elif kind == 'sched':
             # ('sched', {param: factor-spec}, explicit_step|None)
             if self.sched is None or self.sched[0] != op[1]:
@@ -193,17 +206,26 @@ class RealRun:
         scale = self._scale() if self.scale_spec is not None else None
         self.model.zero_grad()
         for mb in range(self.acc):
+            # as_ranks: single process emulating N ranks as micro-batches
+            dr, dm = (mb, 0) if cfg.get('as_ranks') else (self.rank, mb)
             x = R.batch_for(cfg['model'], cfg.get('batch', 2), self.dtype,
-                            self.rank, self.it, mb, self.seed)
+                            dr, self.it, dm, self.seed)
             out = self.model(x)
-            loss = R.loss_fn(out, self.rank, self.it, mb, self.seed)
-            loss = loss / self.acc * cfg.get('loss_mult', 1.0)
+            loss = R.loss_fn(out, dr, self.it, dm, self.seed)
+            # as_ranks: every micro-batch is a rank's full batch (loss not
+            # divided); the accumulated gradient is averaged afterwards
+            if not cfg.get('as_ranks'):
+                loss = loss / self.acc
+            loss = loss * cfg.get('loss_mult', 1.0)
             if cfg.get('zero_loss'):
                 loss = loss * 0.0
             if scale is not None:
                 loss = loss * scale
             loss.backward()
         params = [p for p in self.model.parameters() if p.grad is not None]
+        if cfg.get('as_ranks'):
+            for p in params:
+                p.grad.div_(self.acc)
         if scale is not None:
             for p in params:
                 p.grad.div_(scale)
